@@ -329,7 +329,10 @@ func matchEntries(before, after []Entry) (ml []matchedEntry) {
 }
 
 func isEntryIdentical(b, a Entry) bool {
-	if !slices.Equal(sort.StringSlice(b.DisabledChecks), sort.StringSlice(a.DisabledChecks)) {
+	bd, ad := slices.Clone(b.DisabledChecks), slices.Clone(a.DisabledChecks)
+	slices.Sort(bd)
+	slices.Sort(ad)
+	if !slices.Equal(bd, ad) {
 		slog.Debug("List of disabled checks was modified",
 			slog.Any("before", sort.StringSlice(b.DisabledChecks)),
 			slog.Any("after", sort.StringSlice(a.DisabledChecks)))
